@@ -367,6 +367,7 @@ func FromNode(n datamodel.Node) (*V, error) {
 		return v, nil
 	case datamodel.Kind_Map:
 		v := &V{K: Map}
+		absent := 0
 		it := n.MapIterator()
 		if it == nil {
 			return nil, fmt.Errorf("nil map iterator")
@@ -383,6 +384,11 @@ func FromNode(n datamodel.Node) (*V, error) {
 			if x == nil {
 				return nil, fmt.Errorf("map holds a nil node at key %q", ks)
 			}
+			if x.IsAbsent() {
+				// a typed struct's optional field without a value: iterated, counted by Length, but not data
+				absent++
+				continue
+			}
 			xv, err := FromNode(x)
 			if err != nil {
 				return nil, fmt.Errorf("%q: %w", ks, err)
@@ -390,8 +396,8 @@ func FromNode(n datamodel.Node) (*V, error) {
 			v.Keys = append(v.Keys, ks)
 			v.Vals = append(v.Vals, xv)
 		}
-		if int64(len(v.Vals)) != n.Length() {
-			return nil, fmt.Errorf("map Length()=%d but iterator yields %d", n.Length(), len(v.Vals))
+		if int64(len(v.Vals)+absent) != n.Length() {
+			return nil, fmt.Errorf("map Length()=%d but iterator yields %d", n.Length(), len(v.Vals)+absent)
 		}
 		return v, nil
 	}
